@@ -1063,14 +1063,20 @@ def run(repo: Repo) -> Result:
     res = Result("C11")
     res.explanation = (
         "Relational argument over the code: a compact rule (regex / partial name / batch) and its expansion drive the same pipeline with the "
-        "same arguments. (R1) the regex conversion unconditionally dominates every query and everything downstream reads the converted "
-        "requirement; (R2) a regex contributes exactly the name filters of all modules for which re.match(pattern, name) succeeds, accumulators "
-        "change only under that test, and an unmatched regex raises before a result exists; (R3) partial names become the regex filter of their "
-        "translation; (R4) the three queries run one independent search per key over the full (de-duplicated) key set and store it under that "
-        "key, so a batch is the conjunction of the single rules. Together with purity (C15) identical inputs give identical verdicts."
+        "same arguments. Each rule analyses the inlined view of a public entry point (private helpers, local names and loop idioms play no "
+        "role). (R1) in the matcher method that Rule.assert_applies runs, ModuleNameConverter.convert is executed unconditionally before every "
+        "graph query, against the evaluable being queried, on the requirement given to the constructor, for both sides; a provenance analysis "
+        "shows that every query argument and every requirement read by a detector / message generator derives from this evaluation's "
+        "conversion and never from state that existed before it; (R2) the conversion result is described as a set comprehension and must be "
+        "{ModuleNameFilter(m) | m in arch.modules, f regex filter, re.match(f.identifier, m)} plus the non-regex filters unchanged, the scan has "
+        "no early exit, and ImpossibleMatch is raised exactly when the set of never-matched patterns is non-empty, before any return; (R3) "
+        "have_name_containing stores {ModuleNameRegexFilter(convert_partial_match_to_regex(n)) | n in names}, unfiltered, on every path; (R4) "
+        "each of the three public queries stores one graph search per element of the given collections, computed from the graph, its own key "
+        "and whole given collections only, with no state carried between keys, so a batch is the conjunction of the single rules. Together with "
+        "purity (C15) identical inputs give identical verdicts."
     )
-    res.not_decided = "regexes matching a module and its sub modules (documented caveat); equality of verdicts is argued from identical pipelines, not observed."
-    res.trusted_base = ["re.match semantics", "C15 (evaluation is a function of its arguments)", "engine CFG/guards"]
+    res.not_decided = "regexes matching a module and its sub modules (documented caveat); equality of verdicts is argued from identical pipelines, not observed; the translation convert_partial_match_to_regex itself is C08's."
+    res.trusted_base = ["re.match semantics", "C15 (evaluation is a function of its arguments)", "engine CFG/guards/inline views", "engine/rules/c11_lib.py, c11_coll.py, c11_prov.py (def-use, collection descriptions, provenance)"]
     run_r1(repo, res)
     run_r2(repo, res)
     run_r3(repo, res)
